@@ -18,7 +18,10 @@ def main(argv):
             return 1
         ok = True
         from concurrent.futures import ThreadPoolExecutor
-        props = sorted(d for d in os.listdir(common.COQ) if d.startswith("C") and os.path.isdir(os.path.join(common.COQ, d)))
+        # only properties that are claimed in the manifest (harness/manifest.py table + manifest.d fragments)
+        from . import manifest as _mf
+        _mf.load_entries()
+        props = sorted(p for p in _mf.CHECKS if os.path.isdir(os.path.join(common.COQ, p)))
 
         def one(p):
             try:
